@@ -4,13 +4,14 @@
 # unless TIER is set) against that worktree through GSVERIF_REPO, removes the worktree.  Evidence of these runs goes to a
 # scratch directory.
 patch="$(readlink -f "$1")"; shift
+root="$(cd "$(dirname "$0")/.." && pwd)"
 name="try_$$"; wt="/tmp/wt/$name"
-/verif/tools/mkworktree.sh "$name" >/dev/null || exit 2
+"$root/tools/mkworktree.sh" "$name" >/dev/null || exit 2
 evdir=$(mktemp -d /tmp/evtry.XXXXXX)
 trap 'git -C /repo worktree remove --force "$wt" 2>/dev/null; rm -rf "$evdir"' EXIT
 ( cd "$wt" && git apply "$patch" ) || { echo "patch does not apply"; exit 2; }
 for c in "$@"; do
-  out=$(cd /verif && GSVERIF_REPO="$wt" GSVERIF_EVIDENCE_DIR="$evdir" ./check $c --tier ${TIER:-quick} 2>&1); rc=$?
+  out=$(cd "$root" && GSVERIF_REPO="$wt" GSVERIF_EVIDENCE_DIR="$evdir" ./check $c --tier ${TIER:-quick} 2>&1); rc=$?
   echo "== $c exit=$rc  $(echo "$out" | grep -c '^VIOLATION') violation lines"
   echo "$out" | grep -A1 '^VIOLATION' | head -${LINES_SHOWN:-6} | cut -c1-400
   echo "$out" | tail -1 | cut -c1-300
